@@ -42,6 +42,8 @@ Definition dump (ids names_ : list N) (ckeys : list (N * N)) (s : lstate) : list
                            match stk s !! id with
                            | Some (a, w) => [a; Z.of_N w; 1]
                            | None => [0; 0; 0] end else []) ids
+  ++ flat_map (fun id => if ((10 <=? id) && (id <? 100))%N then
+                           [match voted s !! id with Some _ => 1 | None => 0 end] else []) ids
   ++ [stk_total s]
   ++ flat_map (fun n => match names s !! n with
                         | Some (o, d) => [Z.of_N o; Z.of_N d]
@@ -101,7 +103,7 @@ Section Run.
 End Run.
 
 Definition mk_state (accs : list (N * acct)) (stks : list (N * (Z * N))) (total : Z) (nms : list (N * (N * N))) : lstate :=
-  {| accts := list_to_map accs; stk := list_to_map stks; stk_total := total; names := list_to_map nms;
+  {| accts := list_to_map accs; stk := list_to_map stks; stk_total := total; voted := ∅; names := list_to_map nms;
      names0 := list_to_map nms; cstor := ∅; bp_reward := 0; receipts := [] |}.
 
 (** checksum of an observation vector (the check script compares checksums and re-evaluates
